@@ -4,7 +4,6 @@ import (
 	"fmt"
 	"math"
 
-	"verifsim/simrt"
 )
 
 // C03 - no entry is served after its expiry deadline.
@@ -142,7 +141,7 @@ func checkC03(rd *RunData) []Violation {
 			return
 		}
 		if r.InvT >= w.dplus-2*sec && r.InvT < w.dplus+2*sec {
-			simrt.Probe("c03.read-near-deadline")
+			probe("c03.read-near-deadline")
 		}
 		if r.InvT < w.dplus {
 			return
@@ -167,7 +166,7 @@ func checkC03(rd *RunData) []Violation {
 		}
 		if r.Op.Kind == "get" && r.Ok {
 			if r.Stale >= 30*sec {
-				simrt.Probe("c03.read-with-cached-clock-30s-stale")
+				probe("c03.read-with-cached-clock-30s-stale")
 			}
 			hit(r, r.Op.Key, r.Val)
 		}
